@@ -308,6 +308,7 @@ class UAIReader(object):
 
         elif self.network_type == "MARKOV":
             model = MarkovNetwork(self.edges)
+            model.add_nodes_from([var for var in self.variables if var not in model])
 
             factors = []
             for table in self.tables:
